@@ -27,12 +27,16 @@ def overlapComplaints : List SecBuf → Nat → List Complaint
 def findProgSection (secs : List SecBuf) (off : BitVec 64) : Option SecBuf :=
   secs.find? fun s => find_prog_section_match s.stype off s.offset s.size
 
+/-- the body of the segment loop: `sec = find_prog_section_for_offset( seg->get_offset() )`, the gate
+    `seg->get_type() == PT_LOAD && seg->get_file_size() > 0 && sec != nullptr`, and inside it
+    `sec_addr = get_virtual_addr( seg->get_offset(), sec )`, `sec_addr != seg->get_virtual_address()` -/
 def segConflict (secs : List SecBuf) (g : Seg) : Bool :=
-  match findProgSection secs g.offset with
-  | none => false
-  | some s =>
-    g.stype == BitVec.ofNat 32 PT_LOAD && decide (0 < g.filesz.toNat) &&
-      validate_addr_ne (get_virtual_addr g.offset s.addr s.offset) g.vaddr
+  let sec := findProgSection secs g.offset
+  if validate_seg_gate g.stype g.filesz sec.isSome then
+    match sec with
+    | some s => validate_addr_ne (validate_sec_addr g.offset s.addr s.offset) g.vaddr
+    | none => false      -- not reached: `sec != nullptr` is part of the gate
+  else false
 
 def validate (o : Obj) : List Complaint :=
   overlapComplaints o.secs 0 ++
